@@ -35,11 +35,47 @@ def _epoch(f, site, read_bb):
     return "?"
 
 
+def _counter_read(f, place, depth=6):
+    """Block in which the value in `place` was read from the reader's `filled` field (None if it is not such a read)."""
+    def is_counter(q):
+        return any(isinstance(e, dict) and e.get("n") == "filled" for e in q["p"])
+    if is_counter(place):
+        return None     # the caller passes operands; a direct field operand is handled by its statement's block below
+    l = place["l"]
+    for _ in range(depth):
+        d = f.unique_def(l)
+        if d is None or d[0] != "stmt":
+            return None
+        r = d[3]["r"]
+        if r["k"] not in ("use", "cast"):
+            return None
+        q = op_place(r["o"])
+        if q is None:
+            return None
+        if is_counter(q):
+            return d[1]
+        if q["p"]:
+            return None
+        l = q["l"]
+    return None
+
+
 def sym_len(f, operand, read_bb):
     """Symbolic value of a usize operand: FILLED@before / FILLED@after / PREFIX / const / ?"""
     p = op_place(operand)
     if p is None:
         return "const:%s" % (operand["k"].get("v"))
+    cb = _counter_read(f, p)
+    if cb is not None:
+        # the reader's own progress counter (`*this.filled`): by C08.1 it holds buf.filled().len() - the cursor is advanced by it
+        # on entry and it is stored after every read -, so a copy taken before the read of this iteration is the old fill
+        # level, one taken after the store that follows the read is the new one
+        if f.dominates(cb, read_bb):
+            return "FILLED@before"
+        stores = [b for b in sorted(f.live) for s_ in f.stmts(b) if s_["k"] == "assign" and s_["p"]["p"] and any(isinstance(e, dict) and e.get("n") == "filled" for e in s_["p"]["p"])]
+        if any(f.dominates(read_bb, sb) and sb != read_bb and f.dominates(sb, cb) for sb in stores):
+            return "FILLED@after"
+        return "FILLED@?"
     site = f.call_defining(p["l"])
     if site is None:
         return "?"
